@@ -15,7 +15,7 @@ import traceback
 from . import build
 
 VERIF = build.VERIF
-EVID = os.path.join(VERIF, "evidence")
+EVID = os.environ.get("ZERV_VERIF_EVIDENCE") or os.path.join(VERIF, "evidence")
 REPLAYS = os.path.join(EVID, "replays")
 FINDINGS = os.path.join(VERIF, "known_findings.json")
 NCPU = min(16, os.cpu_count() or 4)
